@@ -107,12 +107,11 @@ def r11_4_loop(ctx, m, L):
     test = L.node.test
     ok_guard = False
     counter = None
-    if isinstance(test, ast.Compare) and len(test.ops) == 1 and isinstance(test.ops[0], (ast.NotEq, ast.Lt)):
-        l, r = norm(test.left), norm(test.comparators[0])
-        for a, b in ((l, r), (r, l)):
-            if b.startswith("len(") and b[4:-1] in m.proc_lists:
-                counter = a
-                ok_guard = True
+    step_want = 1
+    sg = rc.sentinel_guard(m, L)
+    if sg is not None:
+        counter, ok_guard = sg[1], True
+        step_want = 1 if sg[0] == "up" else -1
     ctx.check(ok_guard, "R11.4", L.where(), "the collection loop runs until the number of sentinels equals the number of processes of the group", key_of(pf, f"guard:{norm(test)}"), guard=norm(test))
     breaks = [st for st in walk_stmts(L.node.body) if isinstance(st, ast.Break) and not _in_inner_loop(L.node, st)]
     rets = [st for st in walk_stmts(L.node.body) if isinstance(st, ast.Return)]
@@ -129,8 +128,8 @@ def r11_4_loop(ctx, m, L):
             if len(incs) > 1:
                 bad = (p, "sentinel counted more than once in one iteration")
             for e in incs:
-                if not (isinstance(e.node.op, ast.Add) and const_value(e.node.value) == 1):
-                    bad = (p, "sentinel counter step is not +1")
+                if not (isinstance(e.node.op, ast.Add if step_want == 1 else ast.Sub) and const_value(e.node.value) == 1):
+                    bad = (p, f"sentinel counter step is not {step_want:+d}")
             if incs and not none_true:
                 bad = (p, "sentinel counted although the item is not the None sentinel")
             got = any(e.kind == "stmt" and e.node is L.get_stmt for e in p.events)
@@ -270,7 +269,17 @@ def _drain_count_ok(pf, loop, pqueues, after):
         for pq in pqueues:
             if t in (f"not {pq}.empty()", f"{pq}.qsize() > 0", f"{pq}.qsize() != 0", f"len({pq}.queue) > 0", f"len({pq}.queue) != 0", f"{pq}.queue"):
                 return True, t
-        return False, t
+        # a countdown: n = len(pq.queue) before the loop, `while n > 0` / `n != 0`, one `n -= 1` per iteration
+        tt = loop.test
+        if isinstance(tt, ast.Compare) and len(tt.ops) == 1 and isinstance(tt.left, ast.Name) and const_value(tt.comparators[0], None) == 0 and isinstance(tt.ops[0], (ast.Gt, ast.NotEq)):
+            c = tt.left.id
+            defs = [st for st in after if isinstance(st, ast.Assign) and len(st.targets) == 1 and norm(st.targets[0]) == c]
+            steps = [st for st in loop.body if isinstance(st, ast.AugAssign) and norm(st.target) == c]
+            from ..core import own_loop_jumps
+
+            if len(defs) == 1 and any(norm(defs[0].value) in (f"len({pq}.queue)", f"{pq}.qsize()") for pq in pqueues) and len(steps) == 1 and isinstance(steps[0].op, ast.Sub) and const_value(steps[0].value) == 1 and not own_loop_jumps(loop.body) and sum(1 for x in ast.walk(loop) if isinstance(x, ast.Name) and x.id == c and isinstance(x.ctx, ast.Store)) == 1:
+                return True, t
+        raise AnalysisError("R11.2", pf.where(loop), f"cannot read how often the drain loop `while {t[:50]}` runs")
     it = loop.iter
     if isinstance(it, ast.Call) and isinstance(it.func, ast.Name) and it.func.id == "range" and len(it.args) == 1:
         a = it.args[0]
